@@ -219,6 +219,20 @@ Theorem C08_cz_move_every_accepted_call_is_executable : forall zx zy cx cy qx qy
     held st' = [] /\ forall p, occ_find p (occ st') = occ_find p O.
 Proof. exact cz_model_accepted_is_executable. Qed.
 
+(* ... on EVERY layout single_col_zone.get_spec builds with a positive spacing: whatever CZ-move call is accepted is executable and
+   returns every atom; and the accepted calls are exactly the documented ones (C08_cz_move_accepts_exactly_the_documented_calls) *)
+Theorem C08_cz_move_on_every_single_zone_layout : forall nx ny s cx cy qx qy sx sy O ps,
+  (0 < s)%Q ->
+  let zx := xpos (single_col_traps nx ny s) in let zy := ypos (single_col_traps nx ny s) in
+  occ_wfb O = true -> cz_model zx zy cx cy qx qy sx sy = Some ps ->
+  exists st', sim_paths (mkast (grid_sites (zx, zy)) O [] [] []) ps = AOk st' /\
+    held st' = [] /\ forall p, occ_find p (occ st') = occ_find p O.
+Proof.
+  intros nx ny s cx cy qx qy sx sy O ps Hs zx zy HO E.
+  destruct (single_col_layouts_are_ascending nx ny s Hs) as [Ax Ay].
+  exact (cz_model_accepted_is_executable zx zy cx cy qx qy sx sy O ps Ax Ay HO E).
+Qed.
+
 (* rearrange: an accepted call whose parking coordinates are pairwise different and whose destination sites are vacant (or vacated by
    the move) is executable, and the atom of zone[src_x[i], src_y[j]] ends on zone[dst_x[i], dst_y[j]] *)
 Theorem C08_rearrange_accepted_strict_call_delivers : forall zx zy sx sy dx dy ps O,
@@ -329,3 +343,4 @@ Print Assumptions C08_recognised_multi_leg_move_is_executable_and_delivers.
 Print Assumptions C08_rearrange_documented_call_is_accepted.
 Print Assumptions C08_rearrange_documented_call_delivers.
 Print Assumptions C08_rearrange_on_every_two_column_layout.
+Print Assumptions C08_cz_move_on_every_single_zone_layout.
